@@ -83,7 +83,10 @@ def programs(ctx):
         p.make(1, 'T', a, u)
         p.make(2, 'T', b, v, 'frac')
         p.hasheq(1, 2)
+    progs.append(p.d())
     # zero is zero only within one scale: without a common scale, zeros in different units are different quantities
+    # (own program: a deviation ends the judgement of the program it occurs in)
+    p = Prog('c19zero')
     for (t, u, v) in (('T', 'tc', 'tf'), ('T', 'tc', 'tk'), ('T', 'tf', 'tk'), ('Money', 'Z2', 'Z3'), ('Money', 'Z0', 'Z2'),
                       ('N', 'p', 'q')):
         p.make(1, t, F(0), u)
@@ -104,7 +107,9 @@ def sig(prog, ev):
         kinds = []
         for op in prog['ops'][-3:-1]:
             kinds.append(op.get('cls') or ('unit' if op.get('k') == 'u' else '?'))
-        if 'T' in kinds:
+        # the recorded finding: equal through the table / converter (the specification agrees they are equal) but
+        # hashed differently.  A wrong verdict of == itself is not that finding.
+        if 'T' in kinds and ev.get('verdict', 'bad:hash') == 'bad:hash':
             return 'Calc:HashEq:table-converted'
         return 'Calc:HashEq'
     return 'Calc:%s' % ev['op']
